@@ -5,7 +5,13 @@
 //   transp gen big SEED COUNT              many sources (100..1500), 2..16 sinks
 //   transp gen huge SEED COUNT             quantities 2^24..2^40, shares at and around 2^31 / 2^32 (designed splits + random), costs <= 1000
 //   transp gen flt SEED COUNT              float-cost problems (geometric distances / dyadic), as DensityLegalizer::reoptimize builds them
+//   transp gen bigcost SEED COUNT          small integer-cost problems with costs near the top of int: even lines have every cost
+//                                          <= INT_MAX/2 = 1073741823 (many at / just below it: the domain where C07 proves that no int
+//                                          overflows), odd lines have at least one cost in (INT_MAX/2, INT_MAX-1] (finding F26)
 //   transp run < cases
+//   transp run short < cases               same, with a CPU-time limit of 0.25 s per case from the start and no SKIPPED cut-off: for the
+//                                          `bigcost` lines above INT_MAX/2 (<= 6 sinks, <= 10 sources: microseconds when the solver returns;
+//                                          about one in eight does not return on the unchanged tree, finding F26)
 // case lines:
 //   "TP incr nsnk nsrc caps.. dems.. costs[snk][src].."            integer-cost constructor; incr=1: increaseCapacity() before solve()
 //   "TF incr nsnk nsrc caps.. dems.. den num[snk][src].."          float-cost constructor, cost = (float)num / (float)den
@@ -29,10 +35,11 @@ typedef long long ll;
 // cases of this process have hung (the unmutated solver needs < 0.05 s on the largest generated problem)
 #include <sys/time.h>
 static int n_hangs = 0;
+static bool short_limit = false;
 static void alarm_handler(int) { vh_sig = SIGALRM; siglongjmp(vh_jmp, 1); }
 static void cpu_alarm(bool on) {
   struct itimerval it; memset(&it, 0, sizeof it);
-  if (on) { if (n_hangs >= 3) it.it_value.tv_usec = 500000; else it.it_value.tv_sec = 5; }
+  if (on) { if (short_limit) it.it_value.tv_usec = 250000; else if (n_hangs >= 3) it.it_value.tv_usec = 500000; else it.it_value.tv_sec = 5; }
   setitimer(ITIMER_VIRTUAL, &it, nullptr);
 }
 
@@ -226,6 +233,43 @@ static void gen_flt(SplitMix &g, ll count) {
   }
 }
 
+// costs near the top of CostType = int (integer-cost constructor only; the float constructor scales to INT_MAX/(4 nbSinks)).
+// Even lines: every cost <= HALF = INT_MAX/2 (c07_ssp_run_no_overflow: sendingCost_[i] + cost <= 2 HALF = INT_MAX - 1, sharp).
+// Odd lines: at least one cost in (HALF, INT_MAX-1]; INT_MAX itself is updateTree's "unreached" sentinel and is outside C13's [0, INT_MAX).
+// Quantities stay small (<= 10 sources of demand <= 20), so that every total cost is < 2^62 (the OCaml driver prints native ints).
+static void gen_bigcost(SplitMix &g, ll count) {
+  const ll HALF = 1073741823, TOP = 2147483646;
+  for (ll it = 0; it < count; ++it) {
+    bool over = it % 2 == 1;
+    ll hi = over ? TOP : HALF;
+    int nsnk = (int)g.uni(g.coin(10) ? 1 : 2, 6), nsrc = (int)g.uni(1, 10);
+    ll maxd = g.coin(50) ? 3 : 20;
+    std::vector<ll> dems(nsrc), caps(nsnk); ll td = 0;
+    for (auto &d : dems) { d = g.uni(1, maxd); td += d; }
+    ll maxc = std::max<ll>(1, (ll)((double)td / nsnk * (g.coin(50) ? 1.0 : 2.0)));
+    for (auto &c : caps) c = g.uni(1, g.coin(50) ? maxc : 2 * maxc);
+    std::vector<std::vector<ll>> costs(nsnk, std::vector<ll>(nsrc));
+    int cm = (int)g.uni(0, 5);
+    if (cm == 0) { for (auto &r : costs) for (auto &c : r) c = hi - g.uni(0, 3); }                       // all at the top, ties
+    else if (cm == 1) { ll w = g.coin(50) ? 10 : 1000000; for (auto &r : costs) for (auto &c : r) c = g.coin(40) ? g.uni(0, 5) : hi - g.uni(0, w); }
+    else if (cm == 2) { for (auto &r : costs) for (auto &c : r) c = g.uni(0, hi); }
+    else if (cm == 3) { for (int j = 0; j < nsnk; ++j) { int bk = (int)g.uni(0, 2); ll base = bk == 0 ? 0 : bk == 1 ? hi / 2 : hi - 2; for (int i = 0; i < nsrc; ++i) costs[j][i] = base + g.uni(0, 2); } }
+    else if (cm == 4) { ll b = g.uni(0, hi); for (auto &r : costs) for (auto &c : r) c = g.coin(50) ? hi : b; }
+    else { for (auto &r : costs) for (auto &c : r) c = g.coin(30) ? 0 : over ? HALF + g.uni(-2, 3) : HALF - g.uni(0, 3); }   // around the bound itself
+    if (over) {
+      ll mx = 0; for (auto &r : costs) for (ll c : r) mx = std::max(mx, c);
+      if (mx <= HALF) costs[g.uni(0, nsnk - 1)][g.uni(0, nsrc - 1)] = g.coin(50) ? HALF + 1 : g.uni(HALF + 1, TOP);
+    }
+    int incr = 0;
+    int fm = (int)g.uni(0, 9);
+    if (fm <= 2) fit_caps(g, caps, dems, 0);
+    else if (fm <= 4) fit_caps(g, caps, dems, 1);
+    else if (fm <= 6) fit_caps(g, caps, dems, 2, 1), fit_caps(g, caps, dems, 0);
+    else incr = 1;
+    print_pb(g, incr, caps, dems, costs);
+  }
+}
+
 int main(int argc, char **argv) {
   std::string mode = argc > 1 ? argv[1] : "run";
   if (mode == "gen") {
@@ -253,13 +297,15 @@ int main(int argc, char **argv) {
       }
       return 0;
     }
-    SplitMix g(strtoull(argv[3], nullptr, 10) * 7919ULL + (what == "rand" ? 1 : what == "big" ? 2 : what == "huge" ? 4 : 3)); ll count = atoll(argv[4]);
+    SplitMix g(strtoull(argv[3], nullptr, 10) * 7919ULL + (what == "rand" ? 1 : what == "big" ? 2 : what == "huge" ? 4 : what == "bigcost" ? 5 : 3)); ll count = atoll(argv[4]);
     if (what == "rand") gen_rand(g, count, false);
     else if (what == "big") gen_rand(g, count, true);
     else if (what == "flt") gen_flt(g, count);
     else if (what == "huge") gen_huge(g, count);
+    else if (what == "bigcost") gen_bigcost(g, count);
     return 0;
   }
+  short_limit = argc > 2 && std::string(argv[2]) == "short";
   vh_install();
   { struct sigaction sa; memset(&sa, 0, sizeof sa); sa.sa_handler = alarm_handler; sa.sa_flags = SA_NODEFER; sigaction(SIGVTALRM, &sa, nullptr); }
   std::string line;
@@ -268,7 +314,7 @@ int main(int argc, char **argv) {
     bool flt = line[1] == 'F';
     auto v = vh_ints(line.substr(3)); size_t p = 0;
     auto nx = [&]() -> ll { return p < v.size() ? v[p++] : 0; };
-    if (n_hangs >= 20) { printf("SKIPPED after 20 cases of this process did not return\n"); continue; }
+    if (n_hangs >= 20 && !short_limit) { printf("SKIPPED after 20 cases of this process did not return\n"); continue; }
     if (sigsetjmp(vh_jmp, 1)) { cpu_alarm(false); if (vh_sig == SIGALRM) ++n_hangs; printf("%s\n", vh_sig == SIGALRM ? "HANG" : vh_signame()); fflush(stdout); continue; }
     try {
       int incr = (int)nx(); int nsnk = (int)nx(), nsrc = (int)nx();
